@@ -36,6 +36,7 @@ type C08Case struct {
 	Staged   int    `json:"staged"`    // number of log results staged
 	PDMode   int    `json:"pd_mode"`   // 0: mixed sizes {0,1,9999,10000}; 1: all 10000; 2: all small; 3: all 9999
 	InFlight int    `json:"in_flight"` // number of staged results with an accepted report
+	EarlyTwice int  `json:"early_twice,omitempty"` // number of logs whose report was accepted 21 min before they are checked and accepted again on a higher block 6 min before (lockout 20 min: still in flight)
 	LogProps int    `json:"log_props"`
 	CondUpk  int    `json:"cond_upkeeps"`
 	PropsFly int    `json:"props_in_flight"`
@@ -171,6 +172,26 @@ func runC08(t *testing.T, c *C08Case) {
 		time.Sleep(24*time.Hour + time.Minute)
 		synctest.Wait()
 	}
+	earlyBlocked := map[string]bool{}
+	if c.EarlyTwice > 0 {
+		early := func(nd *Node, p common.UpkeepPayload) {
+			rep, _ := nd.Enc.Encode(common.CheckResult{Eligible: true, UpkeepID: p.UpkeepID, Trigger: p.Trigger, WorkID: p.WorkID, GasAllocated: 1, FastGasWei: bigMax(), LinkNative: bigMax()})
+			_, _ = nd.Plugin.ShouldAcceptAttestedReport(context.Background(), 1, ocr3types.ReportWithInfo[plugin.AutomationReportInfo]{Report: rep})
+		}
+		for _, step := range []struct {
+			blk   uint64
+			sleep time.Duration
+		}{{900, 15 * time.Minute}, {1000, 6 * time.Minute}} {
+			for i := 0; i < c.EarlyTwice && i < c.Staged; i++ {
+				p := logPayload(c.Staged-1-i, step.blk)
+				earlyBlocked[p.WorkID] = true
+				early(a, p)
+				early(b, p)
+			}
+			time.Sleep(step.sleep)
+			synctest.Wait()
+		}
+	}
 	for _, f := range pushes {
 		f()
 	}
@@ -235,6 +256,9 @@ func runC08(t *testing.T, c *C08Case) {
 
 	// in flight: accepted reports for some staged results and some proposals
 	blocked := map[string]bool{}
+	for w := range earlyBlocked {
+		blocked[w] = true
+	}
 	accept := func(nd *Node, p common.UpkeepPayload) {
 		if c.AccLower && p.Trigger.BlockNumber > 20 && p.Trigger.BlockNumber != 1000 {
 			p.Trigger.BlockNumber -= 10 // the accepted report was checked on an earlier block than the stored proposal
@@ -500,6 +524,8 @@ func boundary() []C08Case {
 	add(C08Case{Family: "100-candidates", Seq: 11, Digest: 1, Staged: 100, PDMode: 2, HistLen: 257})
 	add(C08Case{Family: "101-candidates", Seq: 19, Digest: 1, Staged: 101, PDMode: 2, HistLen: 300})
 	add(C08Case{Family: "101-candidates-inflight", Seq: 20, Digest: 2, Staged: 101, PDMode: 2, InFlight: 3, HistLen: 255})
+	add(C08Case{Family: "accepted-again-on-a-higher-block-within-the-lockout", Seq: 22, Digest: 1, Staged: 40, PDMode: 2, EarlyTwice: 5, HistLen: 20})
+	add(C08Case{Family: "accepted-again-on-a-higher-block-within-the-lockout", Seq: 23, Digest: 2, Staged: 120, PDMode: 2, EarlyTwice: 30, InFlight: 4, HistLen: 20})
 	add(C08Case{Family: "all-max-size-over-byte-limit", Seq: 21, Digest: 1, Staged: 150, PDMode: 1, HistLen: 256, LogProps: 6, CondUpk: 8})
 	add(C08Case{Family: "all-9999-over-byte-limit", Seq: 29, Digest: 1, Staged: 100, PDMode: 3, HistLen: 256})
 	add(C08Case{Family: "mixed-sizes-at-limit", Seq: 30, Digest: 2, Staged: 400, PDMode: 0, InFlight: 20, HistLen: 256, LogProps: 8, CondUpk: 12, PropsFly: 4})
